@@ -3,7 +3,7 @@
     callbacks it made and a digest of its state after every operation). *)
 From Coq Require Import List ZArith Bool String.
 From V Require Import Gen.Params Lib.Hex Lib.Corr.
-From V Require Export ConnIDs.Model ConnIDs.Routing.
+From V Require Export ConnIDs.Model ConnIDs.Routing ConnIDs.GenRoute.
 Import ListNotations.
 Open Scope Z_scope.
 
@@ -26,12 +26,17 @@ Inductive gobs := GO (cls : Z) (evs : list gev) (d : gdigest).
     handlers map as (ID, kind code, reference) and the reset-token map *)
 Inductive robs := RO (flag : bool) (kind ref sent : Z) (routes : list (cid * Z * Z)) (toks : list (Z * Z)).
 
+(** generator wired to a real packetHandlerMap: the generator's observation plus the map *)
+Inductive grobs := GRO (g : gobs) (table : list (cid * Z * Z)).
+
 Inductive case :=
+| GenRouteCase (initial : cid) (clientDest : option cid) (len0 : bool) (ops : list (grop * grobs))
 | MgrCase (initial : cid) (ops : list (mop * mobs))
 | GenCase (initial : cid) (clientDest : option cid) (len0 : bool) (ops : list (gop * gobs))
 | RouteCase (ops : list (rop * robs)).
 
 Inductive obs :=
+| GenRouteObs (l : list grobs)
 | MgrObs (l : list mobs)
 | GenObs (l : list gobs)
 | RouteObs (l : list robs).
@@ -80,8 +85,21 @@ Fixpoint rt_trace (ops : list rop) (s : rt) : list robs :=
     :: rt_trace r s'
   end.
 
+Definition table_of (t : rt) : list (cid * Z * Z) :=
+  map (fun e : cid * hkind => (fst e, fst (hkind_code (snd e)), snd (hkind_code (snd e)))) (rt_handlers t).
+
+Fixpoint gr_trace (ops : list grop) (s : gen * rt) : list grobs :=
+  match ops with
+  | [] => []
+  | o :: r =>
+    let (s', cls) := gr_step o s in
+    GRO (GO (rclass_code cls) (new_events (g_log (fst s)) (g_log (fst s'))) (gdigest_of (fst s'))) (table_of (snd s'))
+    :: gr_trace r s'
+  end.
+
 Definition model_obs (c : case) : obs :=
   match c with
+  | GenRouteCase i cd l0 ops => GenRouteObs (gr_trace (map fst ops) (gr_init i cd l0))
   | MgrCase i ops => MgrObs (mgr_trace (map fst ops) (mgr_init i))
   | GenCase i cd l0 ops => GenObs (gen_trace (map fst ops) (gen_init i cd l0))
   | RouteCase ops => RouteObs (rt_trace (map fst ops) rt_init)
@@ -171,8 +189,12 @@ Definition robs_eqb (a b : robs) : bool :=
     Bool.eqb f1 f2 && (k1 =? k2) && (r1 =? r2) && (s1 =? s2) && perm_eqb route_eqb h1 h2 && perm_eqb zz_eqb t1 t2
   end.
 
+Definition grobs_eqb (a b : grobs) : bool :=
+  match a, b with GRO g1 t1, GRO g2 t2 => gobs_eqb g1 g2 && perm_eqb route_eqb t1 t2 end.
+
 Definition check_case (c : case) : bool :=
   match c, model_obs c with
+  | GenRouteCase _ _ _ ops, GenRouteObs l => list_eqb grobs_eqb (map snd ops) l
   | MgrCase _ ops, MgrObs l => list_eqb mobs_eqb (map snd ops) l
   | GenCase _ _ _ ops, GenObs l => list_eqb gobs_eqb (map snd ops) l
   | RouteCase ops, RouteObs l => list_eqb robs_eqb (map snd ops) l
